@@ -65,9 +65,17 @@ class CountingReader(io.BufferedReader):
         self.eof_budget = eof_budget
         self.call_budget = call_budget if call_budget is not None else 400 + 24 * len(data)
         self.trace: list = []
+        self.run1 = 0               # current run of consecutive read(1) calls
+        self.max_run1 = 0
 
     def _enter(self, what, n):
         self.calls += 1
+        if what == 'read' and n == 1:
+            self.run1 += 1
+            if self.run1 > self.max_run1:
+                self.max_run1 = self.run1
+        else:
+            self.run1 = 0
         if len(self.trace) < 40:
             self.trace.append((what, n))
         if self.delivered >= self.total:
@@ -115,6 +123,7 @@ class FakeSocket:
         self.out = bytearray()
         self.peer = peer
         self.writes = 0
+        self.calls = []          # filled by probe_handler_class: one record per do_POST / do_GET entered
 
     def makefile(self, mode='rb', bufsize=-1):
         if 'r' in mode:
@@ -253,11 +262,99 @@ class L2Result:
         self.negative_reads = 0
         self.consumed = 0
         self.trace = []
+        self.max_run1 = 0
+        self.handler_calls = []   # records of the do_POST / do_GET calls (probe_handler_class)
 
 
 def handler_class():
     from sdc11073.httpserver.httprequesthandler import DispatchingRequestHandler
     return DispatchingRequestHandler
+
+
+_PROBE = None
+
+
+def probe_handler_class():
+    """Subclass of the real handler that only records entry / exit / exception of do_POST and do_GET and the slice of the
+    output written meanwhile (the code of do_POST / do_GET itself is the repository's)."""
+    global _PROBE
+    if _PROBE is not None:
+        return _PROBE
+    import traceback
+    base = handler_class()
+
+    class ProbeHandler(base):
+        def _probe(self, name, fn):
+            sock = self.connection
+            rec = {'method': name, 'version': self.request_version, 'path': self.path, 'start': len(sock.out), 'exc': None, 'tb': None,
+                   'spin': False, 'headers': [(k, v) for k, v in self.headers.items()]}
+            sock.calls.append(rec)
+            try:
+                fn()
+            except StepBudgetExceeded:
+                rec['spin'] = True
+                raise
+            except Exception as ex:  # noqa: BLE001
+                rec['exc'] = ex
+                rec['tb'] = traceback.extract_tb(ex.__traceback__)
+                raise
+            finally:
+                rec['end'] = len(sock.out)
+
+        def do_POST(self):  # noqa: N802
+            self._probe('POST', super().do_POST)
+
+        def do_GET(self):  # noqa: N802
+            self._probe('GET', super().do_GET)
+
+        def log_message(self, format, *args):  # noqa: A002   stdlib error replies print to stderr
+            pass
+    _PROBE = ProbeHandler
+    return _PROBE
+
+
+class LineBudget:
+    """sys.monitoring LINE events restricted to the code objects of the given modules; more than ``cap`` events between two
+    reset() calls raise StepBudgetExceeded inside the code under test (a loop that spins without reading)."""
+
+    TOOL = 4
+
+    def __init__(self, modules, cap=3_000_000):
+        import sys
+        import types
+        self.cap = cap
+        self.n = 0
+        self.mon = sys.monitoring
+        self.mon.use_tool_id(self.TOOL, 'vf_line_budget')
+        codes = []
+
+        def walk(code):
+            codes.append(code)
+            for c in code.co_consts:
+                if isinstance(c, types.CodeType):
+                    walk(c)
+        for mod in modules:
+            for obj in vars(mod).values():
+                if isinstance(obj, types.FunctionType) and obj.__module__ == mod.__name__:
+                    walk(obj.__code__)
+                elif isinstance(obj, type) and obj.__module__ == mod.__name__:
+                    for m in vars(obj).values():
+                        f = getattr(m, '__func__', m)
+                        if isinstance(f, types.FunctionType):
+                            walk(f.__code__)
+        self.codes = codes
+        self.mon.register_callback(self.TOOL, self.mon.events.LINE, self._line)
+        for c in codes:
+            self.mon.set_local_events(self.TOOL, c, self.mon.events.LINE)
+
+    def _line(self, code, line):
+        self.n += 1
+        if self.n > self.cap:
+            self.n = 0
+            raise StepBudgetExceeded('line_budget', {'function': code.co_name, 'line': line, 'cap': self.cap})
+
+    def reset(self):
+        self.n = 0
 
 
 def feed(server, data: bytes, methods=None, peer=('127.0.0.1', 40404), handler_cls=None, **budget) -> L2Result:
@@ -279,6 +376,8 @@ def feed(server, data: bytes, methods=None, peer=('127.0.0.1', 40404), handler_c
     res.unbounded_reads, res.negative_reads = rd.unbounded_reads, rd.negative_reads
     res.consumed = rd.delivered
     res.trace = rd.trace
+    res.max_run1 = rd.max_run1
+    res.handler_calls = sock.calls
     res.responses = parse_responses(res.out, methods)
     return res
 
